@@ -45,6 +45,7 @@ ServerAnswer ==
      THEN LET f == sc.faults[k][fi + 1] IN
           /\ fi' = fi + 1
           /\ IF f = "delay" THEN phase' = "sending" /\ UNCHANGED <<fl, left>>
+             ELSE IF f = "unprepared" THEN phase' = "idle" /\ UNCHANGED <<fl, left>>      \* re-prepared, same request again
              ELSE LET d == DefaultDecide(fl, TRUE, "LocalQuorum", SymOf(f)) IN
                   IF d.d = "same" THEN phase' = "idle" /\ fl' = d.fl /\ UNCHANGED left
                   ELSE IF d.d = "next" /\ left > 1 THEN phase' = "idle" /\ fl' = d.fl /\ left' = left - 1
